@@ -191,10 +191,23 @@ pub fn gen_doc(t: &mut Tape, apps: &[AppSpec], p: &Profile) -> XResp {
     }
 }
 
+/// An ETag header value that is not an authentic one: either one of a few fixed shapes or a short sequence over the
+/// tokens the ETag syntax is made of (quote, weak prefix, colon, hex and non-hex text, blanks, non-ASCII).
+pub fn gen_garbage_etag(t: &mut Tape) -> String {
+    const FIXED: [&str; 7] = ["", ":", "abc", "\"\"", "W/\"\"", "00:00", "zz:zz"];
+    const TOK: [&str; 12] = ["\"", "W/", ":", "0", "a", "3045", "zz", " ", "\t", "w/", "é", "/"];
+    if t.flag() {
+        (*t.pick(&FIXED)).to_string()
+    } else {
+        let n = 1 + t.choose(5);
+        (0..n).map(|_| *t.pick(&TOK)).collect()
+    }
+}
+
 pub fn gen_auth(t: &mut Tape) -> Auth {
     match t.choose(8) {
         0 => Auth::NoEtag,
-        1 => Auth::Garbage((*t.pick(&["", ":", "abc", "\"\"", "W/\"\"", "00:00", "zz:zz"])).to_string()),
+        1 => Auth::Garbage(gen_garbage_etag(t)),
         2 => Auth::OtherBody,
         3 => Auth::OtherRegisteredKey,
         4 => Auth::UnregisteredKey,
